@@ -169,6 +169,9 @@ def io_view(sym, kind, R, L, nits):
             'fromdicts-generator-noheader': lambda: petl.fromdicts((dict(zip(HDR, r)) for r in rows)),
             'fromcolumns': lambda: petl.fromcolumns([[r[0] for r in rows], [r[1] for r in rows]], header=['a', 'b']),
             'memorysource-csv': lambda: petl.fromcsv(petl.MemorySource(open(p['csv'], 'rb').read())),
+            'memorysource-pickle': lambda: petl.frompickle(petl.MemorySource(open(p['pickle'], 'rb').read())),
+            'memorysource-json': lambda: petl.fromjson(petl.MemorySource(open(p['jsonl'], 'rb').read()), lines=True, header=list(HDR)),
+            'memorysource-text': lambda: petl.fromtext(petl.MemorySource(open(p['text'], 'rb').read())),
             'csv-sort-pipeline': lambda: petl.sort(petl.fromcsv(p['csv']), 'a', buffersize=1),
         }
         try:
@@ -217,7 +220,7 @@ RULE = 'One job per view; the interleaving schedule is symbolic: every sequence 
 
 IO_KINDS = ['fromcsv', 'fromtsv', 'frompickle', 'fromjson', 'fromjson-lines', 'fromtext', 'fromdb-connection',
             'fromdicts-list', 'fromdicts-generator', 'fromdicts-generator-noheader', 'fromcolumns',
-            'memorysource-csv', 'csv-sort-pipeline']
+            'memorysource-csv', 'memorysource-pickle', 'memorysource-json', 'memorysource-text', 'csv-sort-pipeline']
 RANDOM_KINDS = ['randomtable', 'dummytable']
 HEAVY_STATE = ('sort', 'cache', 'distinct', 'aggregate', 'hash', 'join', 'leftjoin', 'rightjoin', 'outerjoin', 'lookupjoin',
                'antijoin', 'complement', 'intersection', 'mergesort', 'merge', 'duplicates', 'unique', 'conflicts', 'fold',
